@@ -315,6 +315,9 @@ func (e *Exec) call(fn *ssa.Function, fc *FuncContract, st *State, x *ssa.Call) 
 	if cont {
 		if callee := x.Call.StaticCallee(); callee != nil {
 			e.recordRet(st, callee.Name(), x)
+			if qn := staticQualName(callee); qn != "" {
+				e.recordRet(st, qn, x)
+			}
 		} else if x.Call.IsInvoke() {
 			e.recordRet(st, x.Call.Method.Name(), x)
 			e.recordRet(st, qualName(&x.Call), x)
@@ -335,7 +338,88 @@ func (e *Exec) setResult(st *State, dst ssa.Value, v Val) {
 	st.vals[dst] = v
 }
 
+// doCall wraps the call with the caller's `stable_across <callee>: e1, e2` clauses: a frame
+// assumption of the function under contract about that callee ("this call does not modify these
+// objects of mine"), listed with the assumptions. Maps and slices keep their identity and contents,
+// other expressions their value.
 func (e *Exec) doCall(fn *ssa.Function, fc *FuncContract, st *State, cc *ssa.CallCommon, fv Val, args []Val, dst ssa.Value, instr ssa.Instruction) (bool, []Exit) {
+	type snap struct {
+		expr string
+		v    sv
+		rows map[string]string // memory key -> row term before the call
+		ref  string
+	}
+	var snaps []snap
+	if e.fc != nil && e.curFn == e.fn && len(e.fc.Lists["stable_across"]) > 0 {
+		var names []string
+		if cc.IsInvoke() {
+			names = append(names, cc.Method.Name(), qualName(cc))
+		} else if cal := cc.StaticCallee(); cal != nil {
+			names = append(names, cal.Name(), staticQualName(cal))
+		}
+		for _, cl := range e.fc.Lists["stable_across"] {
+			j := strings.Index(cl.Expr, ":")
+			if j < 0 {
+				continue
+			}
+			hit := false
+			for _, n := range names {
+				if n != "" && n == strings.TrimSpace(cl.Expr[:j]) {
+					hit = true
+				}
+			}
+			if !hit {
+				continue
+			}
+			for _, ex := range splitTop(cl.Expr[j+1:], ',') {
+				ex = strings.TrimSpace(ex)
+				c := e.specEnvLocals(st)
+				v, err := c.evalExpr(ex)
+				if err != nil || v.c != nil {
+					e.note("CONTRACT-ERROR stable_across %s: %v", ex, err)
+					continue
+				}
+				sn := snap{expr: ex, v: v, rows: map[string]string{}}
+				switch u := v.T.Underlying().(type) {
+				case *types.Map:
+					dk, ds, vk, vs := e.mapKeys(u)
+					sn.ref = v.S
+					sn.rows[dk+"\x00"+ds] = fmt.Sprintf("(select %s %s)", e.memGet(st, dk, ds), v.S)
+					sn.rows[vk+"\x00"+vs] = fmt.Sprintf("(select %s %s)", e.memGet(st, vk, vs), v.S)
+					ns := fmt.Sprintf("(Array Int %s)", e.sc.idx())
+					sn.rows["MN\x00"+ns] = fmt.Sprintf("(select %s %s)", e.memGet(st, "MN", ns), v.S)
+				case *types.Slice:
+					k, srt := e.elemKey(u.Elem())
+					sn.ref = "(s-base " + v.S + ")"
+					sn.rows[k+"\x00"+srt] = fmt.Sprintf("(select %s %s)", e.memGet(st, k, srt), sn.ref)
+				}
+				for k, t := range sn.rows {
+					sn.rows[k] = e.sc.define("stable", strings.TrimSuffix(strings.SplitN(strings.SplitN(k, "\x00", 2)[1], " ", 3)[2], ")"), t)
+				}
+				e.libUsed["stable-across:"+strings.TrimSpace(cl.Expr[:j])+": "+ex] = true
+				snaps = append(snaps, sn)
+			}
+		}
+	}
+	cont, exits := e.doCallInner(fn, fc, st, cc, fv, args, dst, instr)
+	if cont {
+		for _, sn := range snaps {
+			c := e.specEnvLocals(st)
+			nv, err := c.evalExpr(sn.expr)
+			if err == nil && nv.c == nil {
+				e.assume(st, eq(nv.S, sn.v.S))
+			}
+			for k, row := range sn.rows {
+				parts := strings.SplitN(k, "\x00", 2)
+				m := e.memGet(st, parts[0], parts[1])
+				e.memSet(st, parts[0], parts[1], fmt.Sprintf("(store %s %s %s)", m, sn.ref, row))
+			}
+		}
+	}
+	return cont, exits
+}
+
+func (e *Exec) doCallInner(fn *ssa.Function, fc *FuncContract, st *State, cc *ssa.CallCommon, fv Val, args []Val, dst ssa.Value, instr ssa.Instruction) (bool, []Exit) {
 	pos := cc.Pos()
 	if b, ok := cc.Value.(*ssa.Builtin); ok {
 		return e.builtin(st, b, cc, args, dst)
@@ -377,6 +461,10 @@ func (e *Exec) doCall(fn *ssa.Function, fc *FuncContract, st *State, cc *ssa.Cal
 	if callee != nil {
 		e.countCall(st, callee.Name())
 		e.beforeCall(st, callee.Name(), pos, args)
+		if qn := staticQualName(callee); qn != "" {
+			e.countCall(st, qn)
+			e.beforeCall(st, qn, pos, args)
+		}
 	}
 	if callee == nil && fv.Fn != nil {
 		callee = fv.Fn
@@ -738,9 +826,71 @@ func (e *Exec) keepsType(key string) bool {
 	return false
 }
 
+// privateMaps: maps made by the function under verification that never leave it (only looked up,
+// updated, ranged over, measured): no callee can reach them. At a loop head (body != nil) only
+// those the loop body does not update itself.
+func (e *Exec) privateMaps(st *State, body map[*ssa.BasicBlock]bool) []*ssa.MakeMap {
+	var out []*ssa.MakeMap
+	if e.curFn != nil && e.curFn != e.fn {
+		return nil
+	}
+	for _, b := range e.fn.Blocks {
+		for _, ins := range b.Instrs {
+			mm, ok := ins.(*ssa.MakeMap)
+			if !ok {
+				continue
+			}
+			if v, has := st.vals[mm]; !has || v.S == "" {
+				continue
+			}
+			private := true
+			for _, r := range *mm.Referrers() {
+				switch x := r.(type) {
+				case *ssa.Lookup, *ssa.Range, *ssa.DebugRef:
+				case *ssa.MapUpdate:
+					if x.Map != mm || x.Key == ssa.Value(mm) || x.Value == ssa.Value(mm) {
+						private = false
+					}
+					if body != nil && body[x.Block()] {
+						private = false
+					}
+				case *ssa.Call:
+					bi, isB := x.Call.Value.(*ssa.Builtin)
+					if !isB || (bi.Name() != "len" && bi.Name() != "delete") {
+						private = false
+					}
+					if isB && bi.Name() == "delete" && body != nil && body[x.Block()] {
+						private = false
+					}
+				default:
+					private = false
+				}
+			}
+			if private {
+				out = append(out, mm)
+			}
+		}
+	}
+	return out
+}
+
 func (e *Exec) havocKeysW(st *State, keys map[string]string, all bool, written map[*ssa.FreeVar]bool) {
+	e.havocKeysB(st, keys, all, written, nil)
+}
+
+func (e *Exec) havocKeysB(st *State, keys map[string]string, all bool, written map[*ssa.FreeVar]bool, body map[*ssa.BasicBlock]bool) {
 	var havocked []string
 	priv := e.privateCells(st, written)
+	if written == nil || body != nil {
+		for _, mm := range e.privateMaps(st, body) {
+			mt := mm.Type().Underlying().(*types.Map)
+			dk, _, vk, _ := e.mapKeys(mt)
+			ref := st.vals[mm].S
+			priv[dk] = append(priv[dk], ref)
+			priv[vk] = append(priv[vk], ref)
+			priv["MN"] = append(priv["MN"], ref)
+		}
+	}
 	if all {
 		for k, s := range e.memSort {
 			if strings.HasPrefix(k, "L|") || strings.HasPrefix(k, "IT|") || k == "top" || strings.HasPrefix(k, "ghost|") {
@@ -912,6 +1062,9 @@ func (e *Exec) appendVals(st *State, elem types.Type, s, t Val, tIsString bool, 
 			idx, e.lt("k", start), na, oldArr, na))
 		e.assume(st, fmt.Sprintf("(forall ((k %s)) (! (=> (and %s %s) (= (select %s %s) (select %s %s))) :pattern ((select %s %s)) :pattern ((select %s %s))))",
 			idx, e.le(e.sc.idxLit(0), "k"), e.lt("k", tlen), na, e.add(start, "k"), tarr, e.add(toff, "k"), na, e.add(start, "k"), tarr, e.add(toff, "k")))
+		// the same fact by absolute position (matches every read of the new array)
+		e.assume(st, fmt.Sprintf("(forall ((k %s)) (! (=> (and %s %s) (= (select %s k) (select %s %s))) :pattern ((select %s k))))",
+			idx, e.le(start, "k"), e.lt("k", e.add(start, tlen)), na, tarr, e.add(toff, e.sub("k", start)), na))
 		newArr = na
 	}
 	m = e.memGet(st, k, srt)
@@ -1103,6 +1256,22 @@ func (e *Exec) beforeCall(st *State, name string, pos token.Pos, args []Val) {
 	}
 }
 
+// staticQualName: "<ReceiverTypeName>.<method>" of a method called statically (for count_calls and
+// before-clauses when several methods share a name, e.g. ring.removeHost / Session.removeHost).
+func staticQualName(f *ssa.Function) string {
+	if f == nil || f.Signature == nil || f.Signature.Recv() == nil {
+		return ""
+	}
+	t := f.Signature.Recv().Type()
+	if p, ok := t.(*types.Pointer); ok {
+		t = p.Elem()
+	}
+	if n, ok := t.(*types.Named); ok {
+		return n.Obj().Name() + "." + f.Name()
+	}
+	return ""
+}
+
 // qualName: "<InterfaceType>.<Method>" of an interface call (for count_calls).
 func qualName(cc *ssa.CallCommon) string {
 	if !cc.IsInvoke() {
@@ -1113,4 +1282,18 @@ func qualName(cc *ssa.CallCommon) string {
 		return n.Obj().Name() + "." + cc.Method.Name()
 	}
 	return "." + cc.Method.Name()
+}
+
+// specEnvLocals: contract environment with the local variables visible at the current instruction.
+func (e *Exec) specEnvLocals(st *State) *specCtx {
+	c := e.specEnv(st, e.entry)
+	if e.curInstr != nil && e.curInstr.Block() != nil {
+		dummy := &loopInfo{header: e.curInstr.Block(), body: map[*ssa.BasicBlock]bool{}}
+		for k, v := range e.loopVars(e.fn, dummy, st, e.curInstr.Block()) {
+			if _, isParam := c.vars[k]; !isParam {
+				c.vars[k] = v
+			}
+		}
+	}
+	return c
 }
